@@ -180,16 +180,16 @@ Section MapKeys.
 
   Lemma mapk_aset l k v : Forall P (map fst l) -> P k -> mapk (aset eqb l k v) = aset eqb2 (mapk l) (f k) v.
   Proof.
-    intros Hl Pk. induction l as [|[a w] r IH]; cbn; [reflexivity|].
+    intros Hl Pk. unfold mapk. induction l as [|[a w] r IH]; cbn; [reflexivity|].
     inversion Hl as [|? ? Pa Hr]. subst. cbn in Pa. rewrite (eqb2_f a k Pa Pk).
-    destruct (eqb a k); cbn; [reflexivity|]. rewrite (IH Hr). reflexivity.
+    destruct (eqb a k); cbn; [reflexivity|]. f_equal. exact (IH Hr).
   Qed.
 
   Lemma mapk_adel l k : Forall P (map fst l) -> P k -> mapk (adel eqb l k) = adel eqb2 (mapk l) (f k).
   Proof.
-    intros Hl Pk. induction l as [|[a w] r IH]; cbn; [reflexivity|].
+    intros Hl Pk. unfold mapk. induction l as [|[a w] r IH]; cbn; [reflexivity|].
     inversion Hl as [|? ? Pa Hr]. subst. cbn in Pa. rewrite (eqb2_f a k Pa Pk).
-    destruct (eqb a k); cbn; [reflexivity|]. rewrite (IH Hr). reflexivity.
+    destruct (eqb a k); cbn; [reflexivity|]. f_equal. exact (IH Hr).
   Qed.
 
   Lemma mapk_keys l : map fst (mapk l) = map f (map fst l).
